@@ -53,7 +53,19 @@ func genCase(t *rapid.T) arith.Case {
 		if c.Op == "exp" {
 			c.X.Exp = int32(rapid.IntRange(-25, 2-len(c.X.Coeff)).Draw(t, "hpee"))
 			c.X.Neg = rapid.Bool().Draw(t, "hpn")
-			if gen.Pick(t, 3, "hptiny") == 0 {
+			if gen.Pick(t, 4, "hplarge") == 0 {
+				// beyond the reach of the series (|x| > 23 * Precision) at precisions in the thousands
+				v := rapid.IntRange(24000, 200000).Draw(t, "hplv")
+				c.X = core.Dec{Coeff: fmt.Sprint(v) + gen.Digits(t, 3, "hplt"), Neg: rapid.Bool().Draw(t, "hpln")}
+				c.X.Exp = -int32(len(c.X.Coeff) - len(fmt.Sprint(v)))
+				c.Ctx.Emax, c.Ctx.Emin = gen.Limit, -gen.Limit
+			} else if gen.Pick(t, 3, "hp308") == 0 {
+				// precisions around 308 (where 10^-Precision leaves the float64 range) with
+				// arguments of up to 200 digits just inside what still matters
+				c.Ctx.P = uint32(rapid.IntRange(300, 335).Draw(t, "hp308p"))
+				c.X.Coeff = gen.DigitsN(t, rapid.IntRange(1, 200).Draw(t, "hp308l"), 9, "hp308c")
+				c.X.Exp = -int32(rapid.IntRange(int(c.Ctx.P)-10, int(c.Ctx.P)+2).Draw(t, "hp308e")) - int32(len(c.X.Coeff)) + 1
+			} else if gen.Pick(t, 3, "hptiny") == 0 {
 				// arguments down to 10^-(P+5): below 10^-308 they leave the float64 range, which
 				// the term-count estimate of the series must not depend on
 				c.X.Exp = -int32(rapid.IntRange(30, int(c.Ctx.P)+5).Draw(t, "hptinye"))
@@ -69,6 +81,9 @@ func genCase(t *rapid.T) arith.Case {
 			// underflowed only if the exact value really lies outside the range"
 			emax := []int{0, 3, 96, 999, 9988, 9989, 20000, 65000, 100000}[gen.Pick(t, 9, "themax")]
 			emin := -[]int{0, 3, 95, 998, 9990, 20000, 65000, 100000}[gen.Pick(t, 8, "themin")]
+			if emin == -100000 && gen.Pick(t, 2, "thjit") == 0 {
+				emin += rapid.IntRange(1, int(c.Ctx.P)+4).Draw(t, "thjitv") // a few units above the package limit
+			}
 			c.Ctx.Emax, c.Ctx.Emin = int32(emax), int32(emin)
 			var k float64
 			switch gen.Pick(t, 3, "thwhich") {
@@ -79,7 +94,9 @@ func genCase(t *rapid.T) arith.Case {
 			default:
 				k = float64(emin - int(c.Ctx.P) + 1)
 			}
-			k += float64(rapid.IntRange(-150, 50).Draw(t, "thd")) / 100
+			if gen.Pick(t, 4, "thexact") != 0 { // a quarter sit on the threshold itself (to nine decimals of x)
+				k += float64(rapid.IntRange(-150, 50).Draw(t, "thd")) / 100
+			}
 			v := k * 2.302585092994046
 			str := strconv.FormatFloat(math.Abs(v), 'f', 9, 64)
 			str = strings.Replace(str, ".", "", 1)
@@ -110,7 +127,25 @@ func genCase(t *rapid.T) arith.Case {
 			c.X.Exp = -int32(len(c.X.Coeff) - len(fmt.Sprint(v)))
 		}
 	case "ln", "log10":
-		if gen.Pick(t, 60, "edgehp") == 1 {
+		if gen.Pick(t, 20, "lnrange") == 1 {
+			// results in the top decade of a tiny exponent range (MaxExponent 0..2): the logarithm
+			// fits, intermediate quantities (the argument itself, k*ln 10) are far larger
+			emax := gen.Pick(t, 3, "lremax")
+			c.Ctx.Emax, c.Ctx.Emin = int32(emax), -int32(rapid.IntRange(0, 40).Draw(t, "lremin"))
+			top := []int{4, 43, 434}[emax] // ln x < 10^(emax+1)  <=>  x < 10^(0.4343*10^(emax+1))
+			if c.Op == "log10" {
+				top = []int{9, 99, 999}[emax]
+			}
+			m := rapid.IntRange(top/2, top+1).Draw(t, "lrm")
+			sd := gen.Digits(t, int(c.Ctx.P)+3, "lrd")
+			if sd == "0" {
+				sd = "2"
+			}
+			c.X = core.Dec{Coeff: sd, Exp: int32(m - len(sd) + 1)}
+			if rapid.Bool().Draw(t, "lrinv") { // and the mirror image below 1
+				c.X.Exp = int32(-m - len(sd) + 1)
+			}
+		} else if gen.Pick(t, 60, "edgehp") == 1 {
 			// the switch-over points of Ln (|x-1| = 0.1 and 0.5) again, at precisions of a hundred
 			// digits and more, where a threshold or guard-digit rule keyed on the precision would
 			// change sides
@@ -131,6 +166,7 @@ func genCase(t *rapid.T) arith.Case {
 			} else {
 				c.X = core.Dec{Coeff: strings.Repeat("9", k), Exp: int32(-k)}
 			}
+			c.X.Exp += int32(rapid.IntRange(-3, 3).Draw(t, "tej")) // ... times a small power of ten
 			c.Ctx.Emax, c.Ctx.Emin = gen.Limit, -gen.Limit
 			if c.Ctx.P > 30 {
 				c.Ctx.P = 30
@@ -262,24 +298,45 @@ func enclose(c arith.Case) (e encl, neg bool) {
 // unit of the result; Log10 divides that by an enclosure of ln 10.
 func encloseNearOne(c arith.Case) (encl, bool) {
 	p := int64(c.Ctx.P)
-	// d = x - 1 exactly: coefficient - 10^-exp at exponent exp (exp < 0 here)
-	if c.X.Exp >= 0 {
+	// x = 10^j * (1 + d): j is the adjusted exponent of x, or one more when x is 0.99...
+	nx := ref.NDigits(c.X.Big())
+	j := int64(c.X.Exp) + nx - 1
+	if c.X.Coeff[0] == '9' {
+		j++
+	}
+	xexp := int64(c.X.Exp) - j // exponent of x/10^j
+	// d = x/10^j - 1 exactly: coefficient - 10^-xexp at exponent xexp (xexp < 0 here)
+	if xexp >= 0 {
 		return encl{}, false
 	}
 	d := c.X.Big()
-	d.Sub(d, ref.Pow10(-int64(c.X.Exp)))
+	d.Sub(d, ref.Pow10(-xexp))
 	if d.Sign() == 0 {
 		return encl{}, false
 	}
 	nd := ref.NDigits(new(big.Int).Abs(d))
-	adj := int64(c.X.Exp) + nd - 1
+	adj := xexp + nd - 1
 	if adj > -(p + 12) {
 		return encl{}, false
+	}
+	if j != 0 {
+		// ln x = j*ln 10 + ln(1+d) with |ln(1+d)| < 10^-(p+11): the second term is far below
+		// the last digit of the first; a plain fixed-point enclosure of j*ln 10 widened by
+		// that much does
+		w := p + 40
+		f := ref.NewFP(w)
+		r := f.MulInt(f.Ln10(), j)
+		slack := ref.Pow10(w - p - 10)
+		r = ref.Iv{Lo: new(big.Int).Sub(r.Lo, slack), Hi: new(big.Int).Add(r.Hi, slack)}
+		if c.Op == "log10" {
+			r = f.Div(r, f.Ln10())
+		}
+		return encl{signedExact(r.Lo, w, 0), signedExact(r.Hi, w, 0), true}, true
 	}
 	w := p + 40
 	f := ref.NewFP(w)
 	// keep the leading w+5 digits of d (the rest is below the slack added next)
-	mant, mexp := new(big.Int).Abs(d), int64(c.X.Exp)
+	mant, mexp := new(big.Int).Abs(d), xexp
 	if nd > w+5 {
 		cut := nd - (w + 5)
 		mant.Quo(mant, ref.Pow10(cut))
@@ -554,6 +611,32 @@ func check(c arith.Case, st *core.Stats) error {
 		st.Class("precision>60")
 		if p > 1000 {
 			st.Class("precision>1000")
+		}
+	}
+	// conditions that follow from the value: a transcendental result is never exact (the exact
+	// cases were handled above; integer powers may be), and Subnormal goes with a result below
+	// 10^MinExponent
+	yInt2, _ := intValue(c.Y)
+	if !(c.Op == "pow" && yInt2) && (!o.Res.Inexact() || !o.Res.Rounded()) {
+		return fmt.Errorf("%s; an inexact result must carry Inexact and Rounded", desc)
+	}
+	if o.D.Coeff.Sign() != 0 {
+		adjRes := int64(o.D.Exponent) + ref.NDigits(o.D.Coeff.MathBigInt()) - 1
+		if adjRes < int64(c.Ctx.Emin) && !o.Res.Subnormal() {
+			return fmt.Errorf("%s; the result is below 10^MinExponent but Subnormal is not raised", desc)
+		}
+		// The true value below 10^MinExponent by more than a tenth of a unit of the last place:
+		// the result is subnormal by definition, even when it rounds up to 10^MinExponent
+		// itself. (Closer to the boundary than that, an implementation that is only required to
+		// be accurate to a unit cannot be asked to know the side.)
+		if cmpSigned(magHi, addUlp(ref.Exact{Num: big.NewInt(1), Den: big.NewInt(1), Exp: int64(c.Ctx.Emin)}, -1, int64(c.Ctx.Emin)-p-1)) < 0 {
+			st.Class("true-value-subnormal")
+			if !o.Res.Subnormal() || (o.Res.Inexact() && !o.Res.Underflow()) {
+				return fmt.Errorf("%s; the true value, in [%v, %v], is below 10^MinExponent: Subnormal (and, being inexact, Underflow) must be raised", desc, en.lo, en.hi)
+			}
+		}
+		if adjT > int64(c.Ctx.Emin) && o.Res.Subnormal() {
+			return fmt.Errorf("%s; Subnormal raised although the true value, in [%v, %v], is above 10^MinExponent", desc, en.lo, en.hi)
 		}
 	}
 	st.NonTrivial(label)
